@@ -807,7 +807,11 @@ class TreeGitStore(GitStore):
                     os.unlink(p)
                 except FileNotFoundError:
                     pass
-                del index[name.encode(DEFAULT_ENCODING)]
+                try:
+                    del index[name.encode(DEFAULT_ENCODING)]
+                except KeyError as exc:
+                    # deleted by somebody else since we looked
+                    raise NoSuchItem(name) from exc
                 self._commit_tree(
                     index, message.encode(DEFAULT_ENCODING), author=author
                 )
